@@ -1,6 +1,7 @@
 import Driver.Json
 import Driver.EncOps
 import SigmaVerif.Model.Pipe
+import SigmaVerif.Model.Registry
 namespace Driver
 open Lean SigmaVerif SigmaVerif.Pipe
 
@@ -58,5 +59,20 @@ def pipeSys (j : Json) : Except String Json := do
   let s := Sys.init.run ops
   pure (Json.mkObj [("pipes", .arr ((List.range s.pipes.length).map (fun p =>
     Json.mkObj [("all", natsToJson (s.specVisible p)), ("visible", natsToJson (s.visible p))])).toArray)])
+
+/-- `reg.run`: registration history of `sigma.pipelines.base.Pipeline`: ops `["decorate", d]`, `["instantiate", c, d]`,
+`["callFunc", h]`, `["callClass", c]`; reply: the output of every op (`null` = nothing registered under the handle) -/
+def regRun (j : Json) : Except String Json := do
+  let ops ← (← (← j.getObjVal? "ops").getArr?).toList.mapM fun o => do
+    let a ← o.getArr?
+    let n (i : Nat) : Except String Nat := (a[i]?.getD Json.null).getNat?
+    match a[0]? with
+    | some (.str "decorate") => do pure (SigmaVerif.Registry.Op.decorate (← n 1))
+    | some (.str "instantiate") => do pure (SigmaVerif.Registry.Op.instantiate (← n 1) (← n 2))
+    | some (.str "callFunc") => do pure (SigmaVerif.Registry.Op.callFunc (← n 1))
+    | some (.str "callClass") => do pure (SigmaVerif.Registry.Op.callClass (← n 1))
+    | _ => throw "bad op"
+  let outs := ((({} : SigmaVerif.Registry.Reg).run ops).2)
+  pure (Json.mkObj [("outs", .arr (outs.map (fun o => match o with | some v => Json.num v | none => Json.null)).toArray)])
 
 end Driver
